@@ -2,6 +2,7 @@ package main
 
 import (
 	"fmt"
+	"math/big"
 	"reflect"
 	"strings"
 
@@ -316,6 +317,24 @@ func (o *oracleC10) counters() map[string]int                        { return o.
 func (o *oracleC10) before(c *stepCtx) {
 	op := c.op
 	c.shRes = nil
+	if op.Name == "IntTo" || op.Name == "RatTo" || op.Name == "FloatTo" {
+		// conversions into a caller-supplied destination: the destination is the
+		// receiver of the conversion; the reference run gets a fresh one carrying
+		// only the precision and mode (big.Float)
+		sw := &World{V: make([]*decimal.Decimal, len(c.w.V))}
+		sw.V[op.A[0]] = new(decimal.Decimal).Copy(c.w.V[op.A[0]])
+		if op.Name == "FloatTo" && c.w.BF != nil {
+			sw.BF = new(big.Float).SetMode(c.w.BF.Mode())
+			if p := c.w.BF.Prec(); p != 0 {
+				sw.BF.SetPrec(p)
+			}
+		}
+		var r Result
+		verifrt.Shadow(func() { r = execOp(sw, op) })
+		c.shRes = &r
+		o.cnt["reused_destination_steps"]++
+		return
+	}
 	if op.Z < 0 || !opInfo[op.Name].writes {
 		return
 	}
@@ -411,6 +430,12 @@ func (o *oracleC10) after(c *stepCtx) *ViolationRec {
 			// definition and leaves the receiver's previous contents in place)
 			return nil
 		}
+	}
+	if op.Z < 0 {
+		if live.Ret != sh.Ret {
+			return fail("result-depends-on-aliasing-or-history", "conversion into a destination used before = %q\n  into a fresh destination             = %q", live.Ret, sh.Ret)
+		}
+		return nil
 	}
 	lz, sz := c.post[op.Z], c.shObs
 	if lz.String()+lz.Digits != sz.String()+sz.Digits {
